@@ -64,6 +64,9 @@ def t_config(t, T, numeric, nbest_max=1, beam='mild'):
     if beam == 'mild' and t.chance(140):
         cfg['pruning_size'] = T + 1
         cfg['use_beta'] = False
+    if beam in ('mild', 'off') and t.chance(40):
+        # "no pruning" spelt as a huge value of the unsigned configuration field
+        cfg['pruning_size'] = t.pick([2 ** 31 - 1, 2 ** 31, 2 ** 32 - 1, 50, 1000])
     return cfg
 
 
@@ -71,6 +74,13 @@ def adversarial_rows(t, sent, cfg):
     """place tag scores at log(beta) +/- delta of the best tag and ranks around pruning_size"""
     beta = cfg['beta']
     for row in sent['tag']:
+        if not cfg['use_beta'] and t.chance(40):
+            # tiny but finite probabilities (exp underflows in float32) competing for the pruning_size slots
+            best = t.below(len(row))
+            for c in range(len(row)):
+                if c != best:
+                    row[c] = float(-100 - t.below(41))
+            continue
         if not t.chance(170):
             continue
         T = len(row)
@@ -164,3 +174,27 @@ def resolve_grammar_spec(spec):
         spec = dict(spec)
         spec['seen'] = [list(p) for p in inventory.seen_rules(spec['kind'])]
     return spec
+
+
+def t_long_case(t):
+    """a sentence longer than 256 tokens over a comb grammar (one derivation shape per span, so the search stays
+    quadratic): exercises token / head indices beyond one byte and max_length above the default"""
+    n = t.int(257, 300)
+    right_branching = t.chance(128)
+    head_left = t.chance(128)
+    if right_branching:
+        binary = [[0, 1, [[1, 'l0', 's0', head_left]]], [0, 0, [[1, 'l1', 's1', head_left]]]]
+    else:
+        binary = [[1, 0, [[1, 'l0', 's0', head_left]]], [0, 0, [[1, 'l1', 's1', head_left]]]]
+    spec = {'kind': 'table', 'cats': ['A', 'B'], 'binary': binary, 'unary': [],
+            'head_mode': 'left' if head_left else 'right'}
+    tag = [[-t.below(17) / 8] for _ in range(n)]
+    # dependency scores from a table indexed modulo a prime, so that rows / columns 256 apart differ
+    base = [-t.below(65) / 8 for _ in range(61)]
+    off = t.below(61)
+    dep = [[base[(i * 7 + j * 13 + (i * j) % 5 + off) % 61] for j in range(n + 1)] for i in range(n)]
+    cfg = {'unary_penalty': 0.125, 'beta': 0.00001, 'use_beta': False, 'pruning_size': 50, 'nbest': 1,
+           'max_step': 10000000, 'max_length': 400, 'processes': 2, 'max_chunk_size': 20}
+    sent = {'words': [f'w{i}' for i in range(n)], 'tag': tag, 'dep': dep}
+    return {'grammar': spec, 'tags': ['A'], 'roots': ['B'], 'sentences': [sent], 'config': cfg, 'numeric': 'dyadic',
+            'head_mode': spec['head_mode'], 'long': True}
